@@ -53,7 +53,7 @@ func init() {
 			r.Try(func() { ruleConstructorErrorPosition(w, r, "R15.10") })
 			r.Rule("R15.11", 2, "'circular' is classifiable for every cycle: the whole-graph check that produces the typed error starts a search from every node and follows every edge")
 			r.Try(func() { ruleSearchComplete(w, r, "R15.11") })
-			r.Rule("R15.12", 3, "a rejected registration leaves no partial state: no error return is reachable after a registry view was written, or every written view is undone")
+			r.Rule("R15.12", 2, "a rejected registration leaves no partial state: no error return is reachable after a registry view was written, or every written view is undone")
 			r.Try(func() {
 				asRule(w, r, "R15.12", []string{"R17.4"}, func(sub *Report) { checkAtomicRejection(w, sub, resolveRegistry(w)) })
 			})
